@@ -20,7 +20,7 @@ REQUIRED_THEOREMS = [
     'C10_table_rows_applied', 'C10_table_counterexample', 'C10_table_counterexample_start',
     'C10_dataset_rows', 'C10_dataset_row_amount', 'C10_multi_partial', 'C10_overlap_counterexample',
     'C10_surgery_direct', 'C10_surgery_indirect', 'C10_delivered_integral', 'paceStep_eq_pace',
-    'C10_multi_nonoverlap', 'C10_dataset_delivery', 'C10_reduced_passthrough']
+    'C10_multi_nonoverlap', 'C10_dataset_delivery', 'C10_reduced_passthrough', 'C10_set_data_history']
 RULE = ('regimens (dose, start, duration, period|None, num|None) with dyadic numbers (and the default 0.01 '
         'duration), single / finite / indefinite, incl. ill-formed ones (zero duration, duration > period, '
         'negative start, num without period); final times on every boundary (None, < start, = start, '
@@ -618,6 +618,65 @@ def check_dataset(ctx, chi, controller, df, with_duration, inp):
         ctx.agree('C10.dataset_build', built, model_err or 'ok', inp)
 
 
+def check_dataset_sequence(ctx, chi, lib, rng, output):
+    """several set_data calls on ONE controller — with a dose column, without a duration column, without any
+    dose information, other individuals: the regimens must be those of the last dataset alone"""
+    dosing = bool(rng.random() < 0.8)
+    if dosing:
+        m = lib.one_compartment_pk_model()
+        m.set_administration('central', direct=bool(rng.random() < 0.5))
+        out = output
+    else:
+        m = lib.tumour_growth_inhibition_model_koch()          # an SBMLModel: no dosing support at all
+        out = 'global.tumour_volume'
+    controller = chi.ProblemModellingController(m, [chi.GaussianErrorModel()])
+    seq, kinds = [], []
+    for step in range(int(rng.integers(2, 5))):
+        while True:
+            df, with_duration = gen_dataset(rng, out)
+            dose_rows = df.dropna(subset=['Dose', 'Time'])
+            if not dose_rows.duplicated(subset=['ID', 'Time']).any():
+                break
+        if rng.random() < 0.5:
+            df['ID'] = df['ID'] + int(rng.integers(0, 3))          # other individuals than before
+        kind = ['dose+duration' if with_duration else 'dose', 'no-dose-information'][int(rng.random() < 0.4)]
+        if kind == 'no-dose-information':
+            controller.set_data(df.drop(columns=[c for c in ('Dose', 'Duration') if c in df.columns]),
+                                dose_key=None, dose_duration_key=None)
+        elif with_duration:
+            controller.set_data(df)
+        else:
+            controller.set_data(df, dose_duration_key=None)
+        kinds.append(kind)
+        inds = None
+        if kind != 'no-dose-information' and dosing:
+            inds = []
+            for label in pd.unique(df['ID'].astype(str)):
+                sub = df[df['ID'].astype(str) == label]
+                inds.append([str(label), [[opt(r['Time']), opt(r['Dose']), opt(r['Duration']) if with_duration else None]
+                                          for _, r in sub.iterrows()]])
+        seq.append(inds)
+        regs = controller.get_dosing_regimens()
+        got = None if regs is None else sorted([str(k), [ev_tuple(e) for e in v.events()]] for k, v in regs.items())
+        inp = {'set_data calls': kinds, 'model supports dosing': dosing, 'last dataset': df.to_dict('list')}
+        mv = ctx.model('C10.setdata', 0.01, seq)
+        mm = None if mv[1] is None else sorted(
+            [lab, [[float(rat(a)), float(rat(b)), float(rat(c)), float(rat(d)), int(k_)] for a, b, c, d, k_ in evs]]
+            for lab, evs in mv[1])
+        ctx.agree('C10.set_data_sequence', got, mm, inp, rtol=1e-12)
+        # the property, from the last dataset alone
+        if inds is None:
+            want = None
+        else:
+            want = sorted([lab, sorted([[a / (d if d is not None else 0.01), t, (d if d is not None else 0.01), 0.0, 0]
+                                        for t, a, d in rows if t is not None and a is not None], key=lambda r: r[1])]
+                          for lab, rows in inds)
+        ok = (got is None and want is None) or (got is not None and want is not None and core.close(got, want, 1e-12))
+        ctx.spec('C10.dataset_rows/after_earlier_set_data', ok, inp,
+                 {'get_dosing_regimens()': got, 'dose rows of the last dataset': want})
+    ctx.case('dataset/sequence', nontrivial='dataset/sequence/%s/%s' % (dosing, '>'.join(k[:2] for k in kinds)))
+
+
 def integrate_pacing(protocol, t_end):
     import myokit
     ps = myokit.PacingSystem(protocol)
@@ -808,6 +867,8 @@ def run(ctx):
             rng = ctx.sub_rng(2 * 10 ** 5 + i)
             df, with_duration = gen_dataset(rng, out)
             ctx.guard(check_dataset, ctx, chi, controller, df, with_duration, {'dataset': df.to_dict('list')})
+        for i in range(25 if quick else 300):
+            ctx.guard(check_dataset_sequence, ctx, chi, lib, ctx.sub_rng(4 * 10 ** 5 + i), out)
         # --- generated compartment models, dosed
         for i in range(14 if quick else 400):
             ctx.guard(check_generated_dosing, ctx, chi, i, ctx.sub_rng(3 * 10 ** 5 + i))
